@@ -7,7 +7,7 @@ from worlds import common, fabric as fw
 
 PID = 'C08'
 SCHEDULE_DEPENDENT = True
-RULE = ('the real fabric with 1-3 subscriber queues; 1-2 client threads publish bursts of 3-12 events with priorities from a '
+RULE = ('the real fabric with 1-3 subscriber queues; 1-2 client threads publish bursts of 3-12 events (some before the fabric is started, some with a redundant start() in between) with priorities from a '
         'small set (many ties) while a delivery thread is starved by the scheduler so that the fabric queues hold >= 3 items '
         '(the lag is the injected fault); oracle evaluated at every get of a delivery thread on the real contents of that '
         'fabric queue: no queued event has a smaller priority number than the one taken, and no queued event of equal '
@@ -34,8 +34,16 @@ def generate(seed, stratum, tier):
       c0.append(['subscribe', qi, s, rng.choice(['fifo', 'lifo']), 'event'])
   nclients = rng.choice([1, 1, 2])
   clients = [c0] + [[['sleep', 0.001]] for _ in range(nclients - 1)]
+  if rng.random() < 0.25:
+    # events published before the fabric is started wait in it too
+    c0.remove(['start'])
+    for _ in range(rng.randrange(2, 6)):
+      c0.append(['publish', rng.choice(sigs), rng.choice(prios)])
+    c0.append(['start'])
   for _ in range(rng.randrange(3, 13)):
     clients[rng.randrange(nclients)].append(['publish', rng.choice(sigs), rng.choice(prios)])
+    if rng.random() < 0.08:
+      clients[0].append(['start'])     # start() on a running fabric must change nothing
   victims = [rng.choice(['fabric.fifo', 'fabric.lifo'])] if rng.random() < 0.6 else ['fabric.fifo', 'fabric.lifo']
   sd = {'gran': rng.choice(['sync', 'line']), 'policy': 'starve', 's': rng.choice([0.5, 0.9]), 'victims': victims,
         'start': rng.randrange(0, 60), 'len': rng.choice([100, 400, 2000])}
